@@ -2,8 +2,9 @@
   BB.Props.C03End — end to end: in a successful assembly every pc-relative transfer is emitted at the
   byte offset of its item and lands on the value the returned label table gives for its target.
 
-  `assemble_land`: there is the item list `items7` the assembler holds after resolve_aligns (all sizes
-  final) and the list `out` of final blobs with `r.bytes = blobBytes out` such that `Land … 0 items7 out`:
+  `assemble_land`: with `lay` the layout `C04.layoutOf` computes from the inputs (so `lay.aligned` IS the
+  item list the assembler holds after resolve_aligns, all sizes final - not an existentially chosen one)
+  there is the list `out` of final blobs with `r.bytes = blobBytes out` such that `Land … 0 lay.aligned out`:
   item by item, at its own byte offset p (the number of bytes of the blobs before it), the item is
   resolved by resolve_immediates against the RETURNED label table `r.labels` and constants
   `r.constants`, then finished by the one-to-one passes into a blob of exactly its size.
@@ -14,6 +15,8 @@
 -/
 import BB.Props.C03Transfers
 import BB.Props.C09
+import BB.Props.C04
+import BB.Read
 namespace BB.Props.C03
 open BB BB.Spec BB.Lemmas
 
@@ -177,12 +180,26 @@ theorem Pw.mono {R S : Item → Item → Prop} (hRS : ∀ a b, R a b → S a b) 
   | nil => exact .nil
   | cons r _ ih => exact .cons (hRS _ _ r) ih
 
-/-- **End to end.**  The list held after resolve_aligns is resolved item by item at the byte offset of
-    each item against the returned tables and finished into the blobs whose concatenation is the output. -/
+/-- the anchored frame of every end-to-end statement: `lay` is THE layout `layoutOf` computes for the
+    inputs (`lay.decided` = the item list before resolve_aligns, `lay.aligned` = the list after it; a
+    function of `H`, `compress`, `items` - nothing is left to choose), its tables are the returned ones,
+    `out` is the list of blobs the items of `lay.aligned` are resolved and finished into, one by one
+    (`Land`), and the output is their concatenation -/
+structure Frame (H : Hooks) (compress : Bool) (items : List Item) (r : AsmResult) (lay : BB.Props.C04.Layout)
+    (out : List Item) : Prop where
+  layout : BB.Props.C04.layoutOf H compress items = .ok lay
+  labels : lay.labels = r.labels
+  constants : lay.constants = r.constants
+  expands : Expands items lay.aligned
+  land : Land H r.constants r.labels 0 lay.aligned out
+  bytes : r.bytes = blobBytes out
+
+/-- **End to end.**  In every successful assembly the list held after resolve_aligns - `lay.aligned`
+    of the layout the inputs determine - is resolved item by item at the byte offset of each item
+    against the returned tables and finished into the blobs whose concatenation is the output. -/
 theorem assemble_land (H : Hooks) (compress : Bool) (items : List Item) (r : AsmResult)
     (h : assembleItems H compress items [] [] = .ok r) :
-    ∃ items7 out : List Item, Expands items items7 ∧ Land H r.constants r.labels 0 items7 out ∧
-      r.bytes = blobBytes out := by
+    ∃ lay out, Frame H compress items r lay out := by
   unfold assembleItems at h
   simp only [bind, Except.bind] at h
   cases h1 : resolveConstants H items [] with
@@ -273,7 +290,10 @@ theorem assemble_land (H : Hooks) (compress : Bool) (items : List Item) (r : Asm
     rintro a z ⟨f, ⟨e, ⟨d, ⟨c, ⟨b, hb, hc⟩, hd⟩, he⟩, hf⟩, hz⟩
     subst hc
     exact ⟨b, d, e, f, hb, hd, he, hf, hz⟩
-  refine ⟨items7, items14, e7, ?_, by rw [← h]; exact hb2⟩
+  have hlay : BB.Props.C04.layoutOf H compress items
+      = .ok ⟨items6, items7, constants, labels7⟩ := by
+    simp only [BB.Props.C04.layoutOf, bind, Except.bind, h1, h2, h3, h4, h6, h7, pure, Except.pure]
+  refine ⟨⟨items6, items7, constants, labels7⟩, items14, hlay, by rw [← h], by rw [← h], e7, ?_, by rw [← h]; exact hb2⟩
   rw [← h]
   exact land_of hrel pfin hb1
 
@@ -285,9 +305,6 @@ theorem drop_len_add (d R : List Nat) (n : Nat) : (d ++ R).drop (d.length + n) =
   | cons a t ih =>
     have e : (a :: t).length + n = (t.length + n) + 1 := by simp only [List.length_cons]; omega
     rw [e, List.cons_append, List.drop_succ_cons, ih]
-
-theorem blobBytes_cons_blob (line : Line) (d : List Nat) (rest : List Item) :
-    blobBytes (.blob line d :: rest) = d ++ blobBytes rest := rfl
 
 /-- item i sits at byte offset `off` = number of bytes of the blobs before it; its blob is the slice of
     the output at `off` -/
@@ -317,6 +334,45 @@ theorem Land.at {H : Hooks} {constants L : Dict} {p : Int} {items out : List Ite
       · simp only [List.take_succ_cons, blobBytes_cons_blob, List.length_append]
         rw [drop_len_add]
         exact g4
+
+/-- the blob of item i has exactly the size the item has in the list -/
+theorem Land.size_at {H : Hooks} {constants L : Dict} {p : Int} {items out : List Item}
+    (h : Land H constants L p items out) : ∀ (i : Nat) (hi : i < items.length) line d,
+    out[i]? = some (.blob line d) → (d.length : Int) = (items[i]).sizeD := by
+  induction h with
+  | nil p => intro i hi; simp at hi
+  | @step p it it' line d rest out hbody hfin hlen _ ih =>
+    intro i hi line2 d2 ho
+    cases i with
+    | zero =>
+      simp only [List.getElem?_cons_zero, Option.some.injEq, Item.blob.injEq] at ho
+      obtain ⟨_, rfl⟩ := ho
+      simpa using hlen
+    | succ j =>
+      simp only [List.getElem?_cons_succ] at ho
+      simpa using ih j (by simpa using hi) line2 d2 ho
+
+/-- the two lists have the same length -/
+theorem Land.length_eq {H : Hooks} {constants L : Dict} {p : Int} {items out : List Item}
+    (h : Land H constants L p items out) : out.length = items.length := by
+  induction h with
+  | nil p => rfl
+  | step p _ _ _ _ ih => simp [ih]
+
+/-- the byte offset of item i in the output is the sum of the sizes of the items in front of it -/
+theorem Land.offset {H : Hooks} {constants L : Dict} {p : Int} {items out : List Item}
+    (h : Land H constants L p items out) : ∀ (i : Nat),
+    ((blobBytes (out.take i)).length : Int) = sizeSum (items.take i) := by
+  induction h with
+  | nil p => intro i; simp [blobBytes, sizeSum]
+  | @step p it it' line d rest out hbody hfin hlen _ ih =>
+    intro i
+    cases i with
+    | zero => simp [blobBytes, sizeSum]
+    | succ j =>
+      simp only [List.take_succ_cons, blobBytes_cons_blob, List.length_append, sizeSum_cons]
+      push_cast
+      rw [ih j, hlen]
 
 theorem step_branch {H : Hooks} {constants L : Dict} {p : Int} {line line' : Line} {name : String}
     {rs1 rs2 : RegOp} {ref : String} {it' : Item} {bs : List Nat} {o : BrOp} {op f3 : Nat}
@@ -381,17 +437,19 @@ theorem step_cb {H : Hooks} {constants L : Dict} {p : Int} {line line' : Line} {
     returned tables. -/
 theorem assemble_branch_lands (H : Hooks) (compress : Bool) (items : List Item) (r : AsmResult)
     (h : assembleItems H compress items [] [] = .ok r) :
-    ∃ items7 out : List Item, Expands items items7 ∧ r.bytes = blobBytes out ∧
-      ∀ (i : Nat) (hi : i < items7.length) line name rs1 rs2 ref o op f3,
-        items7[i] = .instr line (.b name rs1 rs2 (.offset ref)) →
+    ∃ lay out, Frame H compress items r lay out ∧
+      ∀ (i : Nat) (hi : i < lay.aligned.length) line name rs1 rs2 ref o op f3,
+        lay.aligned[i] = .instr line (.b name rs1 rs2 (.offset ref)) →
         instrTable.lookup name = some (.b op f3) → classOf name = some (.br o) →
         ∃ w r1 r2 v d, (r.bytes.drop (blobBytes (out.take i)).length).take 4 = leBytes 4 w ∧
           decode32 w = some (.branch o r1 r2 v) ∧
           lookupRegister rs1 = some r1 ∧ lookupRegister rs2 = some r2 ∧
           chainGet r.constants r.labels ref = some d ∧
           ((blobBytes (out.take i)).length : Int) + v = d := by
-  obtain ⟨items7, out, hexp, hland, hbytes⟩ := assemble_land H compress items r h
-  refine ⟨items7, out, hexp, hbytes, ?_⟩
+  obtain ⟨lay, out, hF⟩ := assemble_land H compress items r h
+  have hland := hF.land
+  have hbytes := hF.bytes
+  refine ⟨lay, out, hF, ?_⟩
   intro i hi line name rs1 rs2 ref o op f3 hit hrow hc
   obtain ⟨it', line', d, _, hbody, hfin, hslice⟩ := hland.at i hi
   rw [hit] at hbody
@@ -405,16 +463,18 @@ theorem assemble_branch_lands (H : Hooks) (compress : Bool) (items : List Item) 
 /-- same for `jal rd, ref` (and `j`, `jal ref`, near `call` / `tail`, which expand to it) -/
 theorem assemble_jal_lands (H : Hooks) (compress : Bool) (items : List Item) (r : AsmResult)
     (h : assembleItems H compress items [] [] = .ok r) :
-    ∃ items7 out : List Item, Expands items items7 ∧ r.bytes = blobBytes out ∧
-      ∀ (i : Nat) (hi : i < items7.length) line name rd ref op,
-        items7[i] = .instr line (.j name rd (.offset ref)) →
+    ∃ lay out, Frame H compress items r lay out ∧
+      ∀ (i : Nat) (hi : i < lay.aligned.length) line name rd ref op,
+        lay.aligned[i] = .instr line (.j name rd (.offset ref)) →
         instrTable.lookup name = some (.j op) → classOf name = some .jal →
         ∃ w rr v d, (r.bytes.drop (blobBytes (out.take i)).length).take 4 = leBytes 4 w ∧
           decode32 w = some (.jal rr v) ∧ lookupRegister rd = some rr ∧
           chainGet r.constants r.labels ref = some d ∧
           ((blobBytes (out.take i)).length : Int) + v = d := by
-  obtain ⟨items7, out, hexp, hland, hbytes⟩ := assemble_land H compress items r h
-  refine ⟨items7, out, hexp, hbytes, ?_⟩
+  obtain ⟨lay, out, hF⟩ := assemble_land H compress items r h
+  have hland := hF.land
+  have hbytes := hF.bytes
+  refine ⟨lay, out, hF, ?_⟩
   intro i hi line name rd ref op hit hrow hc
   obtain ⟨it', line', d, _, hbody, hfin, hslice⟩ := hland.at i hi
   rw [hit] at hbody
@@ -428,22 +488,24 @@ theorem assemble_jal_lands (H : Hooks) (compress : Bool) (items : List Item) (r 
 /-- same for the compressed jumps and branches chosen by -c -/
 theorem assemble_compressed_lands (H : Hooks) (compress : Bool) (items : List Item) (r : AsmResult)
     (h : assembleItems H compress items [] [] = .ok r) :
-    ∃ items7 out : List Item, Expands items items7 ∧ r.bytes = blobBytes out ∧
-      (∀ (i : Nat) (hi : i < items7.length) line name ref c,
-        items7[i] = .instr line (.cj name (.offset ref)) → classOf16 name = some c → (c = .j ∨ c = .jal) →
+    ∃ lay out, Frame H compress items r lay out ∧
+      (∀ (i : Nat) (hi : i < lay.aligned.length) line name ref c,
+        lay.aligned[i] = .instr line (.cj name (.offset ref)) → classOf16 name = some c → (c = .j ∨ c = .jal) →
         ∃ w v d, (r.bytes.drop (blobBytes (out.take i)).length).take 2 = leBytes 2 w ∧
           decode16 w = some (if c = .j then CInstr.j v else CInstr.jal v) ∧
           chainGet r.constants r.labels ref = some d ∧
           ((blobBytes (out.take i)).length : Int) + v = d) ∧
-      (∀ (i : Nat) (hi : i < items7.length) line name rs1 ref c,
-        items7[i] = .instr line (.cb name rs1 (.offset ref)) → classOf16 name = some c →
+      (∀ (i : Nat) (hi : i < lay.aligned.length) line name rs1 ref c,
+        lay.aligned[i] = .instr line (.cb name rs1 (.offset ref)) → classOf16 name = some c →
         (c = .beqz ∨ c = .bnez) →
         ∃ w rr v d, (r.bytes.drop (blobBytes (out.take i)).length).take 2 = leBytes 2 w ∧
           decode16 w = some (if c = .beqz then CInstr.beqz rr v else CInstr.bnez rr v) ∧
           lookupRegister rs1 = some rr ∧ chainGet r.constants r.labels ref = some d ∧
           ((blobBytes (out.take i)).length : Int) + v = d) := by
-  obtain ⟨items7, out, hexp, hland, hbytes⟩ := assemble_land H compress items r h
-  refine ⟨items7, out, hexp, hbytes, ?_, ?_⟩
+  obtain ⟨lay, out, hF⟩ := assemble_land H compress items r h
+  have hland := hF.land
+  have hbytes := hF.bytes
+  refine ⟨lay, out, hF, ?_, ?_⟩
   · intro i hi line name ref c hit hc hcj
     obtain ⟨it', line', d, _, hbody, hfin, hslice⟩ := hland.at i hi
     rw [hit] at hbody
@@ -464,11 +526,6 @@ theorem assemble_compressed_lands (H : Hooks) (compress : Bool) (items : List It
     rw [hslice]; exact hb
 
 /-! ### far call / tail: the auipc + jalr pair -/
-
-theorem blobBytes_append (a b : List Item) : blobBytes (a ++ b) = blobBytes a ++ blobBytes b := by
-  induction a with
-  | nil => rfl
-  | cons x t ih => cases x <;> simp [blobBytes, ih]
 
 theorem step_auipc {H : Hooks} {constants L : Dict} {p : Int} {line line' : Line} {rd : RegOp}
     {ref : String} {it' : Item} {bs : List Nat}
@@ -540,10 +597,10 @@ theorem step_jalr_pair {H : Hooks} {constants L : Dict} {p : Int} {line line' : 
     modulo 2³² — what the machine computes for the jump target when r2 = ra. -/
 theorem assemble_far_pair_lands (H : Hooks) (compress : Bool) (items : List Item) (r : AsmResult)
     (h : assembleItems H compress items [] [] = .ok r) :
-    ∃ items7 out : List Item, Expands items items7 ∧ r.bytes = blobBytes out ∧
-      ∀ (i : Nat) (hi : i + 1 < items7.length) lineA lineJ rdA rdJ rsJ ref,
-        items7[i] = .instr lineA (.u "auipc" rdA (.hi (.offset ref))) →
-        items7[i + 1] = .instr lineJ (.i "jalr" rdJ rsJ (.lo (.offset ref)) true) →
+    ∃ lay out, Frame H compress items r lay out ∧
+      ∀ (i : Nat) (hi : i + 1 < lay.aligned.length) lineA lineJ rdA rdJ rsJ ref,
+        lay.aligned[i] = .instr lineA (.u "auipc" rdA (.hi (.offset ref))) →
+        lay.aligned[i + 1] = .instr lineJ (.i "jalr" rdJ rsJ (.lo (.offset ref)) true) →
         ∃ wa wj ra r1 r2 f lo d,
           (r.bytes.drop (blobBytes (out.take i)).length).take 4 = leBytes 4 wa ∧
           (r.bytes.drop ((blobBytes (out.take i)).length + 4)).take 4 = leBytes 4 wj ∧
@@ -552,8 +609,10 @@ theorem assemble_far_pair_lands (H : Hooks) (compress : Bool) (items : List Item
           chainGet r.constants r.labels ref = some d ∧
           ((((blobBytes (out.take i)).length : Int) + (((f : Int) * 4096) % 4294967296 + lo)) % 4294967296
             = d % 4294967296) := by
-  obtain ⟨items7, out, hexp, hland, hbytes⟩ := assemble_land H compress items r h
-  refine ⟨items7, out, hexp, hbytes, ?_⟩
+  obtain ⟨lay, out, hF⟩ := assemble_land H compress items r h
+  have hland := hF.land
+  have hbytes := hF.bytes
+  refine ⟨lay, out, hF, ?_⟩
   intro i hi lineA lineJ rdA rdJ rsJ ref hA hJ
   obtain ⟨itA, lA, dA, hoA, hbodyA, hfinA, hsliceA⟩ := hland.at i (by omega)
   obtain ⟨itJ, lJ, dJ, hoJ, hbodyJ, hfinJ, hsliceJ⟩ := hland.at (i + 1) hi
@@ -594,5 +653,50 @@ theorem assemble_far_pair_lands (H : Hooks) (compress : Bool) (items : List Item
     have hp := C07.pair_rebuilds (d' - ((blobBytes (out.take i)).length : Int))
     rw [hf]
     omega
+
+/-! ### The statements are not vacuous
+
+A little program with two labels, a branch, a near call, a backward jump, a branch on zero, data, an
+alignment and a `ret`.  It assembles in both modes, and the layout `layoutOf` computes for it holds the
+patterns the theorems above speak about (so their ∀ has instances): without -c a `beq` at index 0 and a
+`jal` at 1 and 2; with -c additionally `c.j` at 2 and `c.beqz` at 3. -/
+
+def sampleLine (n : Nat) (s : String) : Line := ⟨"m.asm", n, s⟩
+
+def sample : List Item :=
+  [.label (sampleLine 1 "start:") "start",
+   .instr (sampleLine 2 "beq x1, x2, end") (.b "beq" (.str "x1") (.str "x2") (.offset "end")),
+   .pseudo (sampleLine 3 "call end") "call" ["end"],
+   .pseudo (sampleLine 4 "j start") "j" ["start"],
+   .pseudo (sampleLine 5 "beqz x8, start") "beqz" ["x8", "start"],
+   .shorthandPack (sampleLine 6 "db 1") "db" (.arith "1"),
+   .align (sampleLine 7 "align 4") 4,
+   .shorthandPack (sampleLine 8 "dw end") "dw" (.arith "end"),
+   .string (sampleLine 9 "string hi") "hi",
+   .label (sampleLine 10 "end:") "end",
+   .pseudo (sampleLine 11 "ret") "ret" []]
+
+example : (assembleItems (textHooks ⟨[], []⟩) false sample [] []).toOption.map
+      (fun r => (r.bytes.length, r.labels)) = some (30, [("start", 0), ("end", 26)]) := by decide +kernel
+
+example : (assembleItems (textHooks ⟨[], []⟩) true sample [] []).toOption.map
+      (fun r => (r.bytes.length, r.labels)) = some (24, [("start", 0), ("end", 22)]) := by decide +kernel
+
+example : (BB.Props.C04.layoutOf (textHooks ⟨[], []⟩) false sample).toOption.map
+      (fun l => (l.aligned[0]?, l.aligned[1]?, l.aligned[2]?)) = some
+      (some (.instr (sampleLine 2 "beq x1, x2, end") (.b "beq" (.str "x1") (.str "x2") (.offset "end"))),
+       some (.instr (sampleLine 3 "call end") (.j "jal" (.str "x1") (.offset "end"))),
+       some (.instr (sampleLine 4 "j start") (.j "jal" (.str "x0") (.offset "start")))) := by decide +kernel
+
+example : (BB.Props.C04.layoutOf (textHooks ⟨[], []⟩) true sample).toOption.map
+      (fun l => (l.aligned[0]?, l.aligned[2]?, l.aligned[3]?)) = some
+      (some (.instr (sampleLine 2 "beq x1, x2, end") (.b "beq" (.str "x1") (.str "x2") (.offset "end"))),
+       some (.instr (sampleLine 4 "j start") (.cj "c.j" (.offset "start"))),
+       some (.instr (sampleLine 5 "beqz x8, start") (.cb "c.beqz" (.str "x8") (.offset "start")))) := by decide +kernel
+
+/-- the hypothesis `NonNeg items` of `assemble_layout` holds for it -/
+example : NonNeg sample := by
+  unfold NonNeg
+  decide +kernel
 
 end BB.Props.C03
